@@ -2,6 +2,7 @@ SPECIFICATION Spec
 CONSTANTS
   Progs <- ConfProgs
   MaxV = 3
+  CopyThrows = {0}
   CopyUnderMutex = TRUE
   CancelUnlocks = TRUE
 
